@@ -1,4 +1,4 @@
-From InfOCF Require Import Core Tol SysZ SysW Lex Kz Form Model Spec.
+From InfOCF Require Import Core Tol SysZ SysW Lex Kz Form Model Spec Diag.
 (* Entry points evaluated by the correspondence check (extracted to OCaml, or by vm_compute). *)
 Definition is_none {A} (o:option A) : bool := match o with None => true | Some _ => false end.
 
@@ -25,7 +25,11 @@ Definition spec_ans (n:nat) (s:system) (weakly:bool) (D:list cond) (q:cond) : re
 
 Definition systems := [SysP; SysZ; SysW; SysLex].
 (* one row per query: model answers then spec answers, in the order of [systems] *)
-Definition run_case (n:nat) (weakly:bool) (D qs:list cond) : option (list (list nat)) * list (list res * list res) :=
-  (consistency_indices n weakly D,
+Definition run_case (n:nat) (weakly:bool) (D qs:list cond) :
+  (option (list (list nat)) * option (list (list nat))) * list (list res * list res) :=
+  ((consistency_indices n weakly D, consistency_idx n weakly D),
    map (fun q => (map (fun s => infer n s weakly D q) systems,
                   map (fun s => spec_ans n s weakly D q) systems)) qs).
+
+Definition run_diag (n:nat) (extended uses_facts:bool) (facts:list form) (D:list cond) : option diag :=
+  diagnostics n extended uses_facts facts D.
